@@ -871,7 +871,17 @@ func (s *Service) runPipeline(ctx context.Context, rp *runnablePipeline) error {
 				return nil
 			}
 			if err != nil {
-				return cerrors.Errorf("node %s stopped with error: %w", node.ID(), err)
+				err = cerrors.Errorf("node %s stopped with error: %w", node.ID(), err)
+				// Record the reason on the tomb NOW, before the deferred
+				// nodesWg.Done() above fires. tomb.v2 records a goroutine's
+				// return value only in its own bookkeeping after the function
+				// has returned, which races the cleanup goroutine waking from
+				// nodesWg.Wait() and reading rp.t.Err(): losing that race makes
+				// the cleanup see tomb.ErrStillAlive for a pipeline that died
+				// of an error and report it as UserStopped, dropping the error
+				// (no recovery, no Degraded). Same fix as pkg/lifecycle-poc.
+				rp.t.Kill(err)
+				return err
 			}
 			return nil
 		})
